@@ -220,3 +220,43 @@ Proof.
   intros content h c be HB HC Ho G. apply (commands_transparent_lemma content); try assumption.
   apply forallb_forall. intros x I. apply cmd_item_good. rewrite Forall_forall in G. auto.
 Qed.
+
+(* ------------------------------------------------------------------ tree packs without a clean-up *)
+Lemma pack_read_step content c be i cf off len :
+  BeHonest content be -> PackPrefix content c -> find (Pack, i) be <> None -> (0 < len)%nat ->
+  fst (cb_read_partial (mkst c be) Pack i cf off len) = RData (be_read_partial be Pack i off len) /\
+  bke (snd (cb_read_partial (mkst c be) Pack i cf off len)) = be /\
+  PackPrefix content (cch (snd (cb_read_partial (mkst c be) Pack i cf off len))).
+Proof.
+  intros HB HP Hb Hl. destruct (find (Pack, i) be) as [d|] eqn:Fb; [|congruence].
+  pose proof (BeHonest_find _ _ _ _ HB Fb) as Ed.
+  unfold cb_read_partial. cbn [cch bke]. destruct (guard_read_partial Pack cf); [|auto].
+  assert (FILL : PackPrefix content (c_write c Pack i d)).
+  { intros j x F. cbn [c_write files] in F. destruct (key_eqb (Pack, j) (Pack, i)) eqn:E.
+    - apply key_eqb_eq in E. inv E. rewrite find_set_eq in F. inv F. exists []. rewrite app_nil_r. reflexivity.
+    - rewrite find_set_neq in F by exact E. apply HP. exact F. }
+  unfold c_read_partial, be_read_partial, be_read_full. rewrite Fb.
+  destruct (find (Pack, i) (files c)) as [dc|] eqn:Fc.
+  - destruct (HP _ _ Fc) as [r Er]. rewrite <- Ed in Er.
+    destruct (len =? 0)%nat eqn:Z; [apply Nat.eqb_eq in Z; lia|]. cbn [orb].
+    destruct (off + len <=? length dc)%nat eqn:E1.
+    + apply Nat.leb_le in E1. cbn [fst snd cch bke].
+      assert (E2 : (off + len <=? length d)%nat = true) by (apply Nat.leb_le; rewrite Er, app_length; lia).
+      rewrite E2. split; [|auto]. rewrite Er. rewrite slice_prefix by exact E1. reflexivity.
+    + destruct (off + len <=? length d)%nat; cbn [fst snd cch bke]; auto.
+  - destruct (off + len <=? length d)%nat; cbn [fst snd cch bke]; auto.
+Qed.
+
+Lemma indexed_pack_reads_transparent_lemma : forall content ops c be,
+  BeHonest content be -> PackPrefix content c -> Forall (indexed_pack_read be) ops ->
+  fst (run_c ops (mkst c be)) = fst (run_u ops be) /\
+  bke (snd (run_c ops (mkst c be))) = be /\ snd (run_u ops be) = be.
+Proof.
+  intros content ops. induction ops as [|o r IH]; intros c be HB HP Ho; [simpl; auto|].
+  inversion Ho as [|? ? H1 H2]. subst.
+  destruct o; simpl in H1; try contradiction. destruct t; try contradiction. destruct H1 as [Hl Hb].
+  rewrite run_step_c, run_step_u. cbn [step_c step_u fst snd].
+  destruct (pack_read_step content c be i c0 off len HB HP Hb Hl) as [R [B P]].
+  destruct (cb_read_partial (mkst c be) Pack i c0 off len) as [x [c1 b1]]. cbn [fst snd cch bke] in *. subst b1 x.
+  destruct (IH c1 be HB P H2) as [R2 [B2 U2]]. rewrite R2. auto.
+Qed.
